@@ -290,9 +290,8 @@ class UnionMarshaller(AbstractMarshaller[UnionT], tp.Generic[UnionT]):
             return val
 
         for routine in self.ordered_routines:
-            with contextlib.suppress(
-                ValueError, TypeError, SyntaxError, AttributeError
-            ):
+            # A member may reject the input with any error, try the next one.
+            with contextlib.suppress(Exception):
                 unmarshalled = routine(val)
                 return unmarshalled
 
